@@ -673,6 +673,11 @@ impl<'de> Deserializer<'de> {
         let id = PrincipalBytes::read(&mut self.input)?;
         let len = self.read_len()?;
         let meth = self.borrow_bytes(len)?;
+        // The method name is text on the wire: malformed UTF-8 is an error even when the
+        // reference is skipped and no visitor ever looks at the name.
+        if std::str::from_utf8(meth).is_err() {
+            return Err(Error::msg("function method name is not valid UTF-8"));
+        }
         self.add_cost(
             std::cmp::max(30, id.len as usize)
                 .saturating_add(len)
